@@ -83,5 +83,166 @@ theorem staticArrayVal_valueError (vs : List Value) (ty : Ty) (name : String) (h
   unfold staticArrayVal
   rw [h]; rfl
 
+/-! ### constants built by expressions -/
+
+mutual
+  /-- Well-formed arguments of a constant-building expression: every general `Sum(tag, typ, vals)`
+      in it has its tag in range and fields of the tagged row's types; `UnitSum(tag, size)` has
+      `tag < size`; an extension constant reports a single type.  Nothing is asked of the helpers
+      beyond their fields being well-formed, and nothing of the std classes. -/
+  def CExpr.ArgsOk : CExpr → Prop
+    | .sum tag typ vals => (∀ vs, CExpr.evalList vals = .ok vs → SumArgsOk tag typ vs) ∧ CExpr.ArgsOkList vals
+    | .tuple vals => CExpr.ArgsOkList vals
+    | .some vals => CExpr.ArgsOkList vals
+    | .left vals _ => CExpr.ArgsOkList vals
+    | .right _ vals => CExpr.ArgsOkList vals
+    | .unitSum tag size => tag < size
+    | .ext _ typ _ _ => typ.isRowVar = false
+    | _ => True
+  def CExpr.ArgsOkList : List CExpr → Prop
+    | [] => True
+    | e :: es => CExpr.ArgsOk e ∧ CExpr.ArgsOkList es
+end
+
+theorem sum_inhabits_of_args (tag : Nat) (typ : Ty) (vs : List Value)
+    (hargs : SumArgsOk tag typ vs) (hvs : ∀ v ∈ vs, Inhabits v (typeOf v)) :
+    Inhabits (.sum tag typ vs) typ := by
+  obtain ⟨row, hv, hs⟩ := hargs
+  exact ⟨Ty.Same.refl _, row, hv, (inhabitsRow_iff_aux vs row).2 ⟨(validList_iff vs).2 hvs, hs⟩⟩
+
+theorem evalList_cons_ok (e : CExpr) (es : List CExpr) (ws : List Value) :
+    CExpr.evalList (e :: es) = .ok ws ↔ ∃ v vs, e.eval = .ok v ∧ CExpr.evalList es = .ok vs ∧ ws = v :: vs := by
+  simp only [CExpr.evalList, bind, Except.bind]
+  cases e.eval with
+  | error x => simp
+  | ok v =>
+    cases CExpr.evalList es with
+    | error x => simp
+    | ok vs => simp [pure, Except.pure, eq_comm]
+
+theorem ext_inhabits (name : String) (typ : Ty) (p : Json) (exts : List String) (h : typ.isRowVar = false) :
+    Inhabits (.ext name typ p exts) typ := ⟨Ty.Same.refl _, h⟩
+
+mutual
+  theorem eval_inhabits : ∀ (e : CExpr) (v : Value), e.eval = .ok v → e.ArgsOk → Inhabits v (typeOf v)
+    | .sum tag typ vals, v, h, ha => by
+      simp only [CExpr.eval, bind, Except.bind] at h
+      cases hl : CExpr.evalList vals with
+      | error x => rw [hl] at h; cases h
+      | ok vs =>
+        rw [hl] at h
+        simp only [pure, Except.pure, Except.ok.injEq] at h
+        subst h
+        exact sum_inhabits_of_args tag typ vs (ha.1 vs hl) (evalList_inhabits vals vs hl ha.2)
+    | .tuple vals, v, h, ha => by
+      simp only [CExpr.eval, bind, Except.bind] at h
+      cases hl : CExpr.evalList vals with
+      | error x => rw [hl] at h; cases h
+      | ok vs =>
+        rw [hl] at h
+        simp only [pure, Except.pure, Except.ok.injEq] at h
+        subst h
+        exact ⟨typesOf vs, Ty.Same.refl _, inhabitsRow_typesOf vs (evalList_inhabits vals vs hl ha)⟩
+    | .some vals, v, h, ha => by
+      simp only [CExpr.eval, bind, Except.bind] at h
+      cases hl : CExpr.evalList vals with
+      | error x => rw [hl] at h; cases h
+      | ok vs =>
+        rw [hl] at h
+        simp only [pure, Except.pure, Except.ok.injEq] at h
+        subst h
+        exact ⟨Ty.Same.refl _, typesOf vs, rfl, inhabitsRow_typesOf vs (evalList_inhabits vals vs hl ha)⟩
+    | .none tys, v, h, _ => by
+      simp only [CExpr.eval, pure, Except.pure, Except.ok.injEq] at h
+      subst h
+      exact ⟨Ty.Same.refl _, [], rfl, trivial⟩
+    | .left vals r, v, h, ha => by
+      simp only [CExpr.eval, bind, Except.bind] at h
+      cases hl : CExpr.evalList vals with
+      | error x => rw [hl] at h; cases h
+      | ok vs =>
+        rw [hl] at h
+        simp only [pure, Except.pure, Except.ok.injEq] at h
+        subst h
+        exact ⟨Ty.Same.refl _, typesOf vs, rfl, inhabitsRow_typesOf vs (evalList_inhabits vals vs hl ha)⟩
+    | .right l vals, v, h, ha => by
+      simp only [CExpr.eval, bind, Except.bind] at h
+      cases hl : CExpr.evalList vals with
+      | error x => rw [hl] at h; cases h
+      | ok vs =>
+        rw [hl] at h
+        simp only [pure, Except.pure, Except.ok.injEq] at h
+        subst h
+        exact ⟨Ty.Same.refl _, typesOf vs, rfl, inhabitsRow_typesOf vs (evalList_inhabits vals vs hl ha)⟩
+    | .unitSum tag size, v, h, ha => by
+      simp only [CExpr.eval, pure, Except.pure, Except.ok.injEq] at h
+      subst h
+      simp only [CExpr.ArgsOk] at ha
+      exact ⟨Ty.Same.refl _, [], by simp [Ty.variant, ha], trivial⟩
+    | .bool b, v, h, _ => by
+      simp only [CExpr.eval, pure, Except.pure, Except.ok.injEq] at h
+      subst h
+      cases b <;> exact ⟨Ty.Same.refl _, [], by simp [Ty.variant], trivial⟩
+    | .unit, v, h, _ => by
+      simp only [CExpr.eval, pure, Except.pure, Except.ok.injEq] at h
+      subst h
+      exact ⟨Ty.Same.refl _, [], by simp [Ty.variant], trivial⟩
+    | .function i o r body, v, h, _ => by
+      simp only [CExpr.eval, pure, Except.pure, Except.ok.injEq] at h
+      subst h
+      exact Ty.Same.refl _
+    | .ext name typ payload exts, v, h, ha => by
+      simp only [CExpr.eval, pure, Except.pure, Except.ok.injEq] at h
+      subst h
+      exact ext_inhabits _ _ _ _ ha
+    | .intVal x w, v, h, _ => by
+      simp only [CExpr.eval, pure, Except.pure, Except.ok.injEq] at h
+      subst h
+      exact ext_inhabits _ _ _ _ rfl
+    | .floatVal lit, v, h, _ => by
+      simp only [CExpr.eval, pure, Except.pure, Except.ok.injEq] at h
+      subst h
+      exact ext_inhabits _ _ _ _ rfl
+    | .stringVal str, v, h, _ => by
+      simp only [CExpr.eval, pure, Except.pure, Except.ok.injEq] at h
+      subst h
+      exact ext_inhabits _ _ _ _ rfl
+    | .arrayVal vals ty, v, h, _ => by
+      simp only [CExpr.eval, bind, Except.bind] at h
+      cases hl : CExpr.evalList vals with
+      | error x => rw [hl] at h; cases h
+      | ok vs =>
+        rw [hl] at h
+        obtain ⟨p, _, rfl⟩ := (arrayVal_ok vs ty v).1 h
+        exact ext_inhabits _ _ _ _ rfl
+    | .listVal vals ty, v, h, _ => by
+      simp only [CExpr.eval, bind, Except.bind] at h
+      cases hl : CExpr.evalList vals with
+      | error x => rw [hl] at h; cases h
+      | ok vs =>
+        rw [hl] at h
+        obtain ⟨p, _, rfl⟩ := (listVal_ok vs ty v).1 h
+        exact ext_inhabits _ _ _ _ rfl
+    | .staticArrayVal vals ty name, v, h, _ => by
+      simp only [CExpr.eval, bind, Except.bind] at h
+      cases hl : CExpr.evalList vals with
+      | error x => rw [hl] at h; cases h
+      | ok vs =>
+        rw [hl] at h
+        obtain ⟨_, p, _, rfl⟩ := (staticArrayVal_ok vs ty name v).1 h
+        exact ext_inhabits _ _ _ _ rfl
+  theorem evalList_inhabits : ∀ (es : List CExpr) (vs : List Value), CExpr.evalList es = .ok vs →
+      CExpr.ArgsOkList es → ∀ v ∈ vs, Inhabits v (typeOf v)
+    | [], vs, h, _ => by
+      simp only [CExpr.evalList, pure, Except.pure, Except.ok.injEq] at h
+      subst h; intro v hv; cases hv
+    | e :: es, ws, h, ha => by
+      obtain ⟨v, vs, h1, h2, rfl⟩ := (evalList_cons_ok e es ws).1 h
+      intro w hw
+      rcases List.mem_cons.1 hw with rfl | hw
+      · exact eval_inhabits e w h1 ha.1
+      · exact evalList_inhabits es vs h2 ha.2 w hw
+end
+
 end StdConsts
 end HugrVerif
